@@ -345,7 +345,9 @@ def geometry_bounded(seed, n_it):
                     return ev, dict(what="a location queried back in system %d (type %d) is not the same point" % (qc, ct), grid=gid, types=types, coords=np.asarray(c_, float).tolist(),
                                     recovered=back.tolist(), want=p.tolist())
         # 2. rigid-body modes in each grid's own displacement system
-        for ref in (np.array([0.0, 0, 0]), rng.randn(3), grids[4][0]):
+        zc = rng.randn(3); zc[rng.randint(3)] = 0.0                      # a reference point on a coordinate plane / axis (one or two components exactly zero)
+        zc2 = np.zeros(3); zc2[rng.randint(3)] = 7.0
+        for ref in (np.array([0.0, 0, 0]), rng.randn(3), grids[4][0], zc, zc2, [float(x_) for x_ in zc2]):
             rb = n2p.rbgeom_uset(uset, ref)
             refxyz = ref if np.size(ref) == 3 else [g for g in grids if g[0] == ref][0][3]
             ev += 1
@@ -369,6 +371,17 @@ def geometry_bounded(seed, n_it):
         ev += 1
         if not np.allclose(n2p.rbmove(n2p.rbgeom_uset(uset, r1), r1, r2), n2p.rbgeom_uset(uset, r2), atol=1e-9):
             return ev, dict(what="rbmove(rbgeom_uset(ref1)) != rbgeom_uset(ref2)")
+        # integer-typed coordinates entered in cylindrical / spherical / rectangular systems land where the same numbers entered as floats land
+        for cid_i in (10, 20, 30):
+            ct_i = systems[cid_i][0]
+            a_int = np.array([3, 30, 2]) if ct_i != 3 else np.array([3, 40, 70])
+            u_i = _add(n2p, None, 5001, cords, cid_i, a_int, dict(coordref))
+            u_f = _add(n2p, None, 5001, cords, cid_i, a_int.astype(float), dict(coordref))
+            ev += 1
+            li, lf = u_i.loc[(5001, 1), "x":"z"].values.astype(float), u_f.loc[(5001, 1), "x":"z"].values.astype(float)
+            if not np.allclose(li, lf, atol=1e-12):
+                return ev, dict(what="a grid whose coordinates are given as integers in a type-%d system is not at the location of the same numbers given as floats" % ct_i,
+                                integers=li.tolist(), floats=lf.tolist())
         # rbcoords: the node locations (relative to the reference point, in the reference frame) recovered from rigid-body modes whose nodes are in their own
         # rectangular / cylindrical / spherical displacement systems
         rbm = n2p.rbgeom_uset(uset, r1)
